@@ -35,10 +35,43 @@ pub trait CurveDrv: 'static {
     fn from_coord(c: Self::B, greatest: bool) -> Option<Aff<Self>>;
     /// multiply all projective coordinates so that the same point gets another representative
     fn rescale(g: &Self::G, lam: &Self::B) -> Self::G;
+    /// both solutions for the other coordinate (get_ys_from_x_unchecked / get_xs_from_y_unchecked)
+    fn recover(c: Self::B) -> Option<(Self::B, Self::B)>;
+    /// GLV (only for configurations that ship it): eigenvalue, scalar decomposition, endomorphism-accelerated multiplication
+    fn glv_lambda() -> Option<BigUint> { None }
+    fn glv_decomp(_k: &Self::S) -> Option<((bool, Self::S), (bool, Self::S))> { None }
+    fn glv_mul(_g: &Self::G, _k: &Self::S, _affine: bool) -> Option<Self::G> { None }
 }
 
 pub struct SWDrv<P>(PhantomData<P>);
 pub struct TEDrv<P>(PhantomData<P>);
+/// a short Weierstrass configuration that ships GLV parameters: SWDrv plus the GLV entry points
+pub struct GlvDrv<P>(PhantomData<P>);
+impl<P: ark_ec::scalar_mul::glv::GLVConfig> CurveDrv for GlvDrv<P>
+where
+    P::BaseField: Elem,
+{
+    type B = P::BaseField;
+    type S = P::ScalarField;
+    type G = swm::Projective<P>;
+    const KIND: &'static str = "sw";
+    fn aff(j: &Value, big: bool) -> swm::Affine<P> { SWDrv::<P>::aff(j, big) }
+    fn proj(j: &Value, lam: &Self::B, big: bool) -> Self::G { SWDrv::<P>::proj(j, lam, big) }
+    fn proj_abs(g: &Self::G, big: bool) -> Result<Value, String> { SWDrv::<P>::proj_abs(g, big) }
+    fn aff_abs(a: &swm::Affine<P>, big: bool) -> Result<Value, String> { SWDrv::<P>::aff_abs(a, big) }
+    fn aff_on_curve(a: &swm::Affine<P>) -> bool { SWDrv::<P>::aff_on_curve(a) }
+    fn aff_in_subgroup(a: &swm::Affine<P>) -> bool { SWDrv::<P>::aff_in_subgroup(a) }
+    fn params(big: bool) -> Value { SWDrv::<P>::params(big) }
+    fn raw(g: &Self::G) -> Value { SWDrv::<P>::raw(g) }
+    fn from_coord(c: Self::B, greatest: bool) -> Option<swm::Affine<P>> { SWDrv::<P>::from_coord(c, greatest) }
+    fn rescale(g: &Self::G, lam: &Self::B) -> Self::G { SWDrv::<P>::rescale(g, lam) }
+    fn recover(c: Self::B) -> Option<(Self::B, Self::B)> { SWDrv::<P>::recover(c) }
+    fn glv_lambda() -> Option<BigUint> { Some(P::LAMBDA.into_bigint().into()) }
+    fn glv_decomp(k: &Self::S) -> Option<((bool, Self::S), (bool, Self::S))> { Some(P::scalar_decomposition(*k)) }
+    fn glv_mul(g: &Self::G, k: &Self::S, affine: bool) -> Option<Self::G> {
+        Some(if affine { P::glv_mul_affine(g.into_affine(), *k).into() } else { P::glv_mul_projective(*g, *k) })
+    }
+}
 
 fn is_inf(j: &Value) -> bool {
     j.as_array().map_or(false, |a| a.is_empty())
@@ -99,6 +132,9 @@ where
     fn from_coord(c: Self::B, greatest: bool) -> Option<swm::Affine<P>> {
         swm::Affine::get_point_from_x_unchecked(c, greatest)
     }
+    fn recover(c: Self::B) -> Option<(Self::B, Self::B)> {
+        swm::Affine::<P>::get_ys_from_x_unchecked(c)
+    }
     fn rescale(g: &Self::G, lam: &Self::B) -> Self::G {
         let l2 = lam.square();
         swm::Projective::new_unchecked(g.x * l2, g.y * l2 * lam, g.z * lam)
@@ -147,6 +183,9 @@ where
     }
     fn from_coord(c: Self::B, greatest: bool) -> Option<tem::Affine<P>> {
         tem::Affine::get_point_from_y_unchecked(c, greatest)
+    }
+    fn recover(c: Self::B) -> Option<(Self::B, Self::B)> {
+        tem::Affine::<P>::get_xs_from_y_unchecked(c)
     }
     fn rescale(g: &Self::G, lam: &Self::B) -> Self::G {
         tem::Projective::new_unchecked(g.x * lam, g.y * lam, g.t * lam, g.z * lam)
@@ -487,11 +526,115 @@ fn record_msm<D: CurveDrv>(cfg: &str, seed: u64, step: usize, rng: &mut Rng, reg
     ev
 }
 
+/// coordinate recovery, point-from-coordinate, random sampling, GLV decomposition and GLV multiplication
+fn record_aux<D: CurveDrv>(cfg: &str, seed: u64, n: usize, out: &mut dyn std::io::Write) -> Report {
+    use ark_ec::CurveConfig;
+    use ark_std::rand::{rngs::StdRng, SeedableRng};
+    use ark_std::UniformRand;
+    let mut rep = Report::default();
+    let mut rng = Rng(seed ^ 0xA0C5);
+    let mut srng = StdRng::seed_from_u64(seed);
+    const K: usize = 4;
+    let r_mod: BigUint = D::S::MODULUS.into();
+    let p = D::B::modulus();
+    let h = limbs_to_biguint(<<D::G as CurveGroup>::Config as CurveConfig>::COFACTOR);
+    let mut hdr = D::params(true);
+    hdr["op"] = json!("reset"); hdr["cfg"] = json!(cfg); hdr["seed"] = json!(seed); hdr["profile"] = json!("aux");
+    hdr["p"] = num_to_json(&p, true); hdr["nlimbs"] = json!(D::B::nlimbs()); hdr["lv"] = json!(D::B::levels(true));
+    hdr["r"] = num_to_json(&r_mod, true); hdr["h"] = num_to_json(&h, true); hdr["nreg"] = json!(K);
+    if let Some(l) = D::glv_lambda() { hdr["lambda"] = num_to_json(&l, true); }
+    writeln!(out, "{}", hdr).unwrap();
+    let gen: D::G = <D::G as PrimeGroup>::generator();
+    let mut regs: Vec<D::G> = vec![D::G::zero(); K];
+    let sbits = 64 * <D::S as PrimeField>::BigInt::NUM_LIMBS as u64;
+    let deg: usize = D::B::shape().iter().product::<usize>().max(1);
+    let mut step = 0;
+    while step < n {
+        step += 1;
+        let d = rng.below(K as u64) as usize;
+        let c = rng.below(100);
+        let has_glv = D::glv_lambda().is_some();
+        let mut ev: Value;
+        let before = regs[d];
+        if c < 15 {
+            // load a subgroup point (random representative)
+            let pnt = gen.mul_bigint(k_limbs(&rng.biguint_below(&r_mod)));
+            let lam = loop { let l = random_base::<D::B>(&mut rng); if !l.is_zero() { break l } };
+            regs[d] = D::rescale(&pnt, &lam);
+            ev = json!({"op": "load", "d": d + 1});
+        } else if c < 45 {
+            // both solutions for the other coordinate of c: c random, structured, or the coordinate of a known point
+            let cval: D::B = match rng.below(5) {
+                0 => { let a = regs[d].into_affine(); let j = D::aff_abs(&a, true).unwrap(); if is_inf(&j) { random_base::<D::B>(&mut rng) } else { D::B::from_abs(&j[if D::KIND == "sw" { 0 } else { 1 }], true) } }
+                1 => D::B::from(rng.below(12)),
+                2 => { let mut cs = vec![BigUint::from(0u32); deg]; let i = rng.below(deg as u64) as usize; cs[i] = &p - BigUint::from(rng.below(5) + 1); D::B::from_coords(&cs) }
+                _ => random_base::<D::B>(&mut rng),
+            };
+            ev = json!({"op": "recover", "c": cval.to_abs(true).unwrap()});
+            rep.op("recover");
+            match guarded(|| D::recover(cval)) {
+                Ok(Some((u1, u2))) => { ev["got"] = json!([u1.to_abs(true).unwrap_or(json!("non-canonical")), u2.to_abs(true).unwrap_or(json!("non-canonical"))]); rep.nontrivial.insert(format!("recover:{step}")); }
+                Ok(None) => { ev["got"] = json!([]); }
+                Err(e) => { ev["got"] = json!([]); ev["panic"] = json!(e); }
+            }
+            ev["w"] = json!([]);
+            rep.evaluations += 1;
+            writeln!(out, "{}", ev).unwrap();
+            continue;
+        } else if c < 60 {
+            let cval: D::B = if rng.coin() { D::B::from(rng.below(30)) } else { random_base::<D::B>(&mut rng) };
+            let greatest = rng.coin();
+            match guarded(|| D::from_coord(cval, greatest)) {
+                Ok(Some(a)) => { regs[d] = a.into_group(); ev = json!({"op": "from_coord", "d": d + 1, "c": cval.to_abs(true).unwrap(), "greatest": greatest}); }
+                Ok(None) => continue,
+                Err(e) => { ev = json!({"op": "from_coord", "d": d + 1, "c": cval.to_abs(true).unwrap(), "greatest": greatest, "panic": e}); }
+            }
+        } else if c < 75 {
+            let affine = rng.coin();
+            match guarded(|| if affine { <D::G as CurveGroup>::Affine::rand(&mut srng).into_group() } else { D::G::rand(&mut srng) }) {
+                Ok(g) => { regs[d] = g; ev = json!({"op": "rand", "d": d + 1, "via": if affine { "affine_rand" } else { "projective_rand" }}); }
+                Err(e) => { ev = json!({"op": "rand", "d": d + 1, "panic": e}); }
+            }
+        } else if !has_glv { continue } else {
+            let one = BigUint::from(1u32);
+            let k = match rng.below(10) { 0 => BigUint::from(0u32), 1 => one.clone(), 2 => &r_mod - &one, 3 => BigUint::from(u64::MAX), 4 => (&one << rng.below(sbits.min(r_mod.bits()))) % &r_mod, 5 => D::glv_lambda().unwrap(), 6 => (&r_mod - D::glv_lambda().unwrap()) % &r_mod, _ => rng.biguint_below(&r_mod) };
+            let ks = D::S::from_le_bytes_mod_order(&k.to_bytes_le());
+            if c < 87 {
+                rep.op("glv_decomp"); rep.evaluations += 1;
+                ev = json!({"op": "glv_decomp", "k": num_to_json(&k, true), "w": []});
+                match guarded(|| D::glv_decomp(&ks).unwrap()) {
+                    Ok(((s1, k1), (s2, k2))) => { let b1: BigUint = k1.into_bigint().into(); let b2: BigUint = k2.into_bigint().into();
+                        ev["s1"] = json!(s1); ev["k1"] = num_to_json(&b1, true); ev["s2"] = json!(s2); ev["k2"] = num_to_json(&b2, true); rep.nontrivial.insert(format!("glv_decomp:{step}")); }
+                    Err(e) => { ev["panic"] = json!(e); ev["s1"] = json!(true); ev["k1"] = json!([]); ev["s2"] = json!(true); ev["k2"] = json!([]); }
+                }
+                writeln!(out, "{}", ev).unwrap();
+                continue;
+            }
+            // endomorphism-accelerated multiplication (claimed on the prime-order subgroup)
+            if !D::aff_in_subgroup(&regs[d].into_affine()) { continue }
+            let affine = rng.coin();
+            ev = json!({"op": "mul", "d": d + 1, "k": num_to_json(&k, true), "alg": if affine { "glv_mul_affine" } else { "glv_mul_projective" }});
+            let src = regs[d];
+            match guarded(|| D::glv_mul(&src, &ks, affine).unwrap()) { Ok(g) => regs[d] = g, Err(e) => { ev["panic"] = json!(e); } }
+        }
+        let op = ev["op"].as_str().unwrap().to_string();
+        rep.op(&op); rep.evaluations += 1;
+        intent(&json!({"machine": "curve", "cfg": cfg, "seed": seed, "step": step, "event": ev}));
+        ev["w"] = json!([[d + 1, D::raw(&regs[d])]]);
+        if regs[d] != before && !regs[d].is_zero() { rep.nontrivial.insert(format!("{op}:{step}")); }
+        rep.sample(&json!({"op": op, "via": ev.get("via"), "alg": ev.get("alg")}));
+        writeln!(out, "{}", ev).unwrap();
+    }
+    rep.transitions = n as u64;
+    rep
+}
+
 pub fn random_base_pub<B: Elem>(rng: &mut Rng) -> B { random_base::<B>(rng) }
 
 pub fn record<D: CurveDrv>(cfg: &str, seed: u64, n: usize, profile: &str, out: &mut dyn std::io::Write) -> Report {
     use ark_ec::CurveConfig;
     if profile == "ser" { return crate::ser::record_big::<D>(cfg, seed, n, out); }
+    if profile == "aux" { return record_aux::<D>(cfg, seed, n, out); }
     let mut rep = Report::default();
     let mut rng = Rng(seed ^ 0xC0FFEE);
     const K: usize = 4;
